@@ -66,7 +66,10 @@ ReqsBy(b) == {k \in Names : rq[b][k] # Nil}
 \* (structs: the names declared through tagged struct fields, one per field, in any order; they are part of `declared`)
 NoCfg == [declared |-> {}, allowLookup |-> FALSE, expiry |-> 0, hasCache |-> FALSE, fileClient |-> FALSE, auto |-> FALSE, structs |-> <<>>]
 StructNames == {cfg.structs[i] : i \in DOMAIN cfg.structs}
-NoIni == [tried |-> {}, missing |-> 0, wait |-> 1, wake |-> Nil, deadline |-> Nil, flush |-> FALSE]
+NoIni == [tried |-> {}, missing |-> 0, from |-> 0, wake |-> Nil, deadline |-> Nil, flush |-> FALSE]
+\* Between rounds of construction the store pauses: for a positive time and "at most a few seconds" (the code doubles
+\* from 1 ms to 4096 ms; the property fixes only the bound, so does the specification).
+MaxPause == 5000
 
 Event(kind, rec) == [ev |-> kind] @@ rec
 
@@ -158,7 +161,7 @@ InitResp(n, forceErr) ==
           /\ UNCHANGED <<ini, phase, cache>>
   /\ UNCHANGED <<cfg, svc, handles, closed, poll, lk, call, now>>
 
-\* end of a round: done, or (file client) fail, or sleep with doubling back-off (1 ms .. 4096 ms)
+\* end of a round: done, or (file client) fail, or pause (a positive time, at most MaxPause, never past the caller's deadline)
 InitRoundEnd ==
   /\ phase = "init" /\ ini.wake = Nil /\ Stubs(m) \subseteq ini.tried
   /\ ReqsBy("init") = {}
@@ -173,15 +176,15 @@ InitRoundEnd ==
      THEN /\ phase' = "failed" /\ ini' = NoIni /\ UNCHANGED <<cache, m, hist>>
           /\ out' = Event("ret", [call |-> "newstore", res |-> "err", flushed |-> FALSE])
      ELSE /\ ini' = [ini EXCEPT !.tried = {}, !.missing = 0,
-                                !.wake = IF InitCtxDone THEN now ELSE
-                                         (IF ini.deadline # Nil /\ ini.deadline < now + ini.wait THEN ini.deadline ELSE now + ini.wait),
-                                !.wait = IF ini.wait < 4000 THEN 2 * ini.wait ELSE ini.wait]
+                                !.from = now,
+                                !.wake = IF InitCtxDone THEN now ELSE       \* the LATEST moment the pause may end
+                                         (IF ini.deadline # Nil /\ ini.deadline < now + MaxPause THEN ini.deadline ELSE now + MaxPause)]
           /\ out' = Event("sleep", [until |-> ini'.wake])
           /\ UNCHANGED <<phase, cache, m, hist>>
   /\ UNCHANGED <<cfg, svc, handles, closed, poll, lk, rq, call, now>>
 
 InitWake ==
-  /\ phase = "init" /\ ini.wake # Nil /\ now >= ini.wake
+  /\ phase = "init" /\ ini.wake # Nil /\ (now >= ini.wake \/ now > ini.from)     \* after a positive pause, at the latest at ini.wake
   /\ ini' = [ini EXCEPT !.wake = Nil]
   /\ out' = Event("wake", [at |-> now])
   /\ UNCHANGED <<cfg, svc, m, handles, cache, phase, closed, poll, lk, rq, call, now, hist>>
@@ -370,7 +373,8 @@ LookupGiveUp(k) ==
 DeadFlights(k) == [n \in Names |-> IF lk[n] # Nil THEN (IF lk[n].leader = k THEN [lk[n] EXCEPT !.dead = TRUE] ELSE lk[n]) ELSE Nil]
 DeadPoll(k) == IF poll # Nil /\ poll.leader = k THEN [poll EXCEPT !.dead = TRUE] ELSE poll
 CtxExpire(k) ==
-  /\ call[k] # Nil /\ call[k].own # Nil /\ ~call[k].expired /\ now >= call[k].own
+  /\ call[k] # Nil /\ call[k].own # Nil /\ ~call[k].expired
+  /\ (now >= call[k].own \/ (call[k].fallback /\ now > call[k].start))    \* the safety limit of a caller without deadline: at most five minutes
   /\ call' = [call EXCEPT ![k].expired = TRUE]
   /\ lk' = DeadFlights(k) /\ poll' = DeadPoll(k)
   /\ out' = Event("ctxexpire", [caller |-> k])
